@@ -13,3 +13,5 @@ Definition marshal_check_Stream (x : go_Stream) : outcome unit :=
 
 Definition STORE_ERR : Z := 10.                               (* = ERR_REG of model/Registry.v: one class per module *)
 Definition store_const_DefaultStorageLimit : Z := MODULE_DEFAULT_LIMIT.
+Definition STORE_ERR_SDK : Z := 7.                            (* sdkerrors.ErrInvalidAddress *)
+Definition Addr_bytes_Empty (a : list N) : bool := match a with [] => true | _ => false end.   (* AccAddress.Empty(): len == 0 *)
